@@ -205,8 +205,20 @@ func genC11(seed uint64, tier string) *world.Scenario {
 				if len(members) == 0 {
 					members = []string{ids[0]}
 				}
-				for _, m := range members {
-					fmt.Fprintf(&b, "\n        - %s", m)
+				switch {
+				case defect(0.15):
+					// the members as one comma separated string (the loader splits it at the commas and keeps
+					// whatever blanks the user typed around the ids)
+					sep := kernel.Pick(r, ",", ",", ", ", " ,")
+					fmt.Fprintf(&b, " %q", kernel.Pick(r, "", "", " ")+strings.Join(members, sep))
+				case defect(0.05):
+					for _, m := range members {
+						fmt.Fprintf(&b, "\n        - %q", kernel.Pick(r, " ", "")+m+kernel.Pick(r, " ", ""))
+					}
+				default:
+					for _, m := range members {
+						fmt.Fprintf(&b, "\n        - %s", m)
+					}
 				}
 			}
 			e.backends = []string{b.String()}
@@ -456,7 +468,16 @@ func specValidate(doc string) specVerdict {
 		}
 		if sub := lower(asMap(c["function"])); c["function"] != nil {
 			var members []string
-			for _, m := range asList(sub["curves"]) {
+			memberList := asList(sub["curves"])
+			if str, ok := sub["curves"].(string); ok {
+				// one string: the ids between the commas, exactly as typed (an empty string: no members)
+				for _, part := range strings.Split(str, ",") {
+					if str != "" {
+						memberList = append(memberList, part)
+					}
+				}
+			}
+			for _, m := range memberList {
 				members = append(members, fmt.Sprint(m))
 				if !curveIDs[fmt.Sprint(m)] {
 					bad("curve %q: unresolvable curve %v", id, m)
